@@ -677,7 +677,17 @@ func main() {
 		if err := json.Unmarshal(data, &rp); err != nil {
 			panic(err)
 		}
-		if rp.Kind == "route" {
+		if rp.Kind == "mitm" {
+			c := e2eCase{rp.Entries, rp.Targets}
+			s, _, err := runMITMCase(*fwd, c)
+			if err != nil {
+				fmt.Println("replay:", err)
+				os.Exit(3)
+			}
+			m.Shards = []string{writeShard(*out, "mcases", 0, "ucase", "ucase_model_ok", "ucase_prop_ok", "ucase_unmodelled", []string{s})}
+			writeJSONL(*out, "mcases.jsonl", []any{c})
+			m.E2ECases = 1
+		} else if rp.Kind == "route" {
 			c := routeCase{rp.Deny, rp.Direct, rp.Targets}
 			s, _, err := runRouteCase(*fwd, c)
 			if err != nil {
@@ -881,6 +891,32 @@ func main() {
 			m.Shards = append(m.Shards, writeShard(*out, "vcases", i, "vcase", "vcase_model_ok", "vcase_prop_ok", "(fun _ : vcase => false)", vc[i*m.ShardSize:hi]))
 		}
 		writeJSONL(*out, "vcases.jsonl", vj)
+		// --mitm with --mitm-domains: which CONNECTs are intercepted, which tunnelled
+		nMITM := 6
+		if *tier == "thorough" {
+			nMITM = 50
+		}
+		var mc []string
+		var mj []any
+		for i := 0; i < nMITM && m.E2EError == ""; i++ {
+			c := genMITMCase(r, i)
+			s, st, err := runMITMCase(*fwd, c)
+			if err != nil {
+				m.E2EError = err.Error()
+				break
+			}
+			for k, v := range st {
+				m.E2EProbes["mitm-"+k] += v
+			}
+			mc = append(mc, s)
+			mj = append(mj, c)
+		}
+		m.E2ECases += len(mc)
+		for i := 0; i*m.ShardSize < len(mc); i++ {
+			hi := min((i+1)*m.ShardSize, len(mc))
+			m.Shards = append(m.Shards, writeShard(*out, "mcases", i, "ucase", "ucase_model_ok", "ucase_prop_ok", "ucase_unmodelled", mc[i*m.ShardSize:hi]))
+		}
+		writeJSONL(*out, "mcases.jsonl", mj)
 	}
 	writeMeta(*out, m)
 }
